@@ -11,7 +11,7 @@ same programs and inputs (model <-> implementation <-> reference).
 from harness import common, l2common, scenarios
 
 PID = "C01"
-TRANSLATORS = ["T-jumpi", "T-consts"]
+TRANSLATORS = ["T-jumpi", "T-consts", "T-branchpts"]
 
 PLAN_QUICK = [("straight", 14), ("branch", 14), ("memory", 10), ("storage", 10), ("hash", 10), ("log", 6), ("loop", 6), ("call", 12), ("create", 8),
               ("opgrid", 40), ("callfail", 24), ("symtarget", 12), ("valuecall", 12)]
@@ -33,6 +33,11 @@ def sig_of(desc, fail):
     sig = {"what": fail.get("what", ""), "features": ",".join(feats), "halmos": str(fail.get("halmos"))[:40], "reference": str(fail.get("reference"))[:40]}
     if 0xF2 in code:
         sig["features"] += ",CALLCODE"
+    if "path_kinds" in fail:      # C02 direction: an input covered by no reported path
+        sig["what"] = "uncovered"
+        sig["symbolic_jump"] = bool(desc.get("options", {}).get("symbolic_jump"))
+        this = scenarios.THIS
+        sig["arg_is_test_contract"] = any(v % (1 << 160) == this for v in (fail.get("input") or {}).get("args", {}).values())
     return sig
 
 
